@@ -601,18 +601,24 @@ example : ∃ (c' : Cat) (new : InterM), C10I.SameUpToOrder' (cat [J, Pb, Ga]) c
   exact ⟨c', new, h1, h3, h4⟩
 
 private def pathDir (id : Nat) : BTree := .node { kind := .Path, id := id, src := id, body := some (s "{}") } []
-/-- two methods with a Path directive each and the same source identity (5): one method of a macro pasted twice -/
+/-- two methods with a Path directive each and the same IDENTITY (70) — which no forest numbered by the decoration
+has; since F44 the Path stage goes by identity, so one method of a macro pasted twice (same `src`, its own `id`: `M5p`)
+is accepted -/
 private def M5 : BTree := .node { kind := .Get, id := 70, src := 5, named := [("Path", s "/p/{a}")] } [pathDir 71, resp 72 "200"]
-private def M5' : BTree := .node { kind := .Get, id := 74, src := 5, named := [("Path", s "/r/{a}")] } [pathDir 75, resp 76 "200"]
+private def M5' : BTree := .node { kind := .Get, id := 70, src := 5, named := [("Path", s "/r/{a}")] } [pathDir 75, resp 76 "200"]
+private def M5p : BTree := .node { kind := .Get, id := 77, src := 5, named := [("Path", s "/r/{a}")] } [pathDir 78, resp 79 "200"]
 
-/-- condition (1) of `add_method_iff` cannot be dropped: `[J, M5]` is accepted, the fold accepts the block `M5'`
-on its catalog and the new interaction has its bodies, but `[J, M5] ++ [M5']` is rejected — by the Path stage,
-which remembers the source identity of the parent of the last Path directive (`pathsTree` in the state `some 5`) -/
+/-- condition (1) of `add_method_iff` cannot be dropped for arbitrary trees: `[J, M5]` is accepted, the fold accepts the
+block `M5'` on its catalog and the new interaction has its bodies, but `[J, M5] ++ [M5']` is rejected — by the Path
+stage, which remembers the identity of the parent of the last Path directive (`pathsTree` in the state `some 70`) -/
 theorem path_stage_matters :
     (compile [] [J, M5]).isOk = true ∧ C10I.isMethodBlock' M5' = true ∧
     (addBranch [] [] M5' (cat [J, M5])).isOk = true ∧
-    pathsForest [] [J, M5] none = .ok (some 5) ∧ pathsTree [] M5' (some 5) = .error ⟨75, .notUnique⟩ ∧
+    pathsForest [] [J, M5] none = .ok (some 70) ∧ pathsTree [] M5' (some 70) = .error ⟨75, .notUnique⟩ ∧
     compile [] ([J, M5] ++ [M5']) = .error ⟨75, .notUnique⟩ := by decide +kernel
+
+/-- F44 in the model: the second copy of a macro's method (same coordinates, its own identity) is accepted -/
+theorem pasted_copy_accepted : (compile [] ([J, M5] ++ [M5p])).isOk = true := by decide +kernel
 
 /-- a method on a "similar" path (`/p/{b}` after `/p/{a}`) and a second `GET /a` are refused by the fold (condition 2) -/
 private def Msim : BTree := .node { kind := .Put, id := 80, src := 80, named := [("Path", s "/p/{b}")] } [resp 81 "200"]
